@@ -152,3 +152,24 @@ Proof.
   intros cfg ops H1 H2. rewrite gexec_ok. cbn [fst tproj t_len].
   exact (length_in_range_proof D R cfg ops H1 H2).
 Qed.
+
+(* ---------------------------------------------------------------------- *)
+(* the generated methods as a second executable for the correspondence check (same observations as
+   Model.run_case; the lock is taken to be re-entrant, which Gen_C09.v checks separately) *)
+
+Definition gobs_row (g : gtel) (r : outcome) (tr : list trans) : list Z :=
+  [ret_code r; phase_code (t_ph g); t_len g; t_err_count g; t_ops_count g; t_renewals g;
+   reason_code (t_sen_reason g); ot_code (t_started_at g); ot_code (t_last_activity g)]
+  ++ flat_map (fun t : trans => [phase_code (fst t); phase_code (snd t)]) tr.
+
+Fixpoint grun_obs (g : gtel) (t : Z) (ops : list op) : list (list Z) :=
+  match ops with
+  | [] => []
+  | o :: rest =>
+      let '(g', r, tr) := gstep g t o in
+      gobs_row g' r tr :: grun_obs g' (clock_after t o) rest
+  end.
+
+Definition grun_case (c : case) : list (list Z) :=
+  let '(_, cfg, ops) := c in
+  cfg_row cfg :: gobs_row (tproj cfg (init cfg)) (Ret RNone) [] :: grun_obs (tproj cfg (init cfg)) (now (init cfg)) ops.
